@@ -1,4 +1,6 @@
 import FparserModel.Proofs.BlockStream
+import FparserModel.Proofs.BlockClosed
+import FparserModel.Proofs.BlockOutcome
 
 /-!
 # M-D — property theorems (every class table, every oracle, every fuel, every state)
@@ -110,6 +112,127 @@ theorem unmatched_not_in_tree (env : Env) (fuel : Nat) (c : Cls) (st st' : St) (
   have : pre ++ (g :: post) = (t.frontier ++ pre') ++ (g :: post) := by
     rw [h1]; simp
   exact ⟨pre', List.append_cancel_right this⟩
+
+/-! ## e. blocks are properly closed; `Program` consumes all input -/
+
+/-- every node of every tree returned by any class satisfies `NodeOK`: a block (or
+`Main_Program0`) whose configuration has an `endcls` consists of leading comment / include /
+directive / cpp leaves, the object returned for its `startcls` (iff it has one), …, and a last
+child that is an instance of `endcls_all`, for which the `match_labels` and `match_names`
+tests of `BlockBase.match` held (`EndOK`). -/
+theorem block_closed (env : Env) (fuel : Nat) (c : Cls) (st st' : St) (t : Tree)
+    (h : run env fuel c st = (.tree t, st')) : WF env.tbl t := by
+  unfold run fresh at h
+  simp only [Prod.mk.injEq] at h
+  exact eval_E env fuel c [] st t h.1
+
+/-- what `EndOK` says about names when `match_names` is on: an end name needs an equal
+(lower-cased) start name, and with `strict_match_names` a named start needs a named end -/
+theorem endOK_names {tbl : Table} {cfg : Cfg} {st en : Tree} (h : EndOK tbl cfg (some st) en)
+    (hm : cfg.matchNames = true) :
+    (truthy (infoOf tbl en).endName = true →
+        (infoOf tbl st).startName = (infoOf tbl en).endName) ∧
+    (cfg.strictNames = true → truthy (infoOf tbl st).startName = true →
+        truthy (infoOf tbl en).endName = true) := by
+  have hc := h.2.2 hm
+  unfold endNameCheck at hc
+  simp only [hm, if_true, Option.map_some] at hc
+  split at hc
+  · cases hc
+  · split at hc
+    · cases hc
+    · split at hc
+      · cases hc
+      · rename_i h1
+        split at hc
+        · cases hc
+        · rename_i h2
+          split at hc
+          · cases hc
+          · rename_i h3
+            constructor
+            · intro he
+              cases hs : truthy (infoOf tbl st).startName with
+              | false => simp [he, hs] at h1
+              | true =>
+                have := h3
+                simp only [hs, he, Bool.true_and, bne_iff_ne, ne_eq, Decidable.not_not,
+                  Bool.and_eq_true, decide_eq_true_eq] at this
+                simpa using this
+            · intro hst hs
+              cases he : truthy (infoOf tbl en).endName with
+              | true => rfl
+              | false => simp [hst, hs, he] at h2
+
+/-- a successful `Program` that did not fall back to `Main_Program0` (no `fallback` event in
+this run) leaves the stream empty.  (The fall-back path does not: `program0_drops_witness`,
+`garbage_after_main0_witness`.) -/
+theorem program_consumes_all (env : Env) (fuel : Nat) (c unit main0 : Cls) (st st' : St) (t : Tree)
+    (hk : env.tbl.kind c = .program unit main0 [])
+    (h : run env (fuel + 1) c st = (.tree t, st')) (hfb : FB st' = FB st) :
+    st'.stream.all = [] := by
+  unfold run fresh at h
+  simp only [Prod.mk.injEq] at h
+  exact program_consumes_eval env fuel c unit main0 [] (eval env (fuel + 1) c [] st).2.1 st st' t hk
+    (Prod.ext h.1 (Prod.ext rfl h.2)) hfb
+
+/-- … so an unmatched statement makes such a `Program` fail -/
+theorem unmatched_rejects_program (env : Env) (fuel : Nat) (c unit main0 : Cls) (st st' : St)
+    (t : Tree) (g : Item) (pre post : List Item) (hu : Unmatched env g)
+    (hb : st.stream.buf = []) (hr : st.stream.rest = pre ++ g :: post)
+    (hk : env.tbl.kind c = .program unit main0 [])
+    (h : run env (fuel + 1) c st = (.tree t, st')) : FB st < FB st' := by
+  have hm : FB st ≤ FB st' := by
+    have := FB_mono (run_rel (logExt_ok env) (fuel + 1) c st); rw [h] at this; exact this
+  rcases Nat.lt_or_ge (FB st) (FB st') with hlt | hge
+  · exact hlt
+  · exfalso
+    have he := program_consumes_all env fuel c unit main0 st st' t hk h (by omega)
+    obtain ⟨_, pre', hp⟩ := no_read_past_unmatched env (fuel + 1) c st g pre post hu hb hr
+    rw [h] at hp
+    simp only at hp
+    rw [he] at hp
+    simp at hp
+
+/-! ## f. outcomes of `Program.__new__` -/
+
+/-- `Program(reader)` never lets `NoMatchError` or `InternalSyntaxError` out -/
+theorem outcome_classified (env : Env) (fuel : Nat) (c unit main0 : Cls) (subs : List Cls)
+    (st : St) (hk : env.tbl.kind c = .program unit main0 subs) :
+    (run env fuel c st).1 ≠ .raise .noMatch ∧ (run env fuel c st).1 ≠ .raise .internalSyntax := by
+  unfold run fresh
+  cases fuel with
+  | zero => simp [eval]
+  | succ fuel =>
+    simp only [eval, hk]
+    generalize (finish env (eval env fuel) c subs _ [c]).1 = o
+    cases o with
+    | none => simp [programConvert]
+    | tree t => simp [programConvert]
+    | raise e => cases e <;> simp [programConvert]
+
+/-- if no leaf class raises `SystemExit`, a `SystemExit` outcome of ANY class is the
+`reader.error → sys.exit` of `BlockBase.match`'s trailing name check (a `sysExit` event was
+logged in this run); witness: `sysexit_witness` -/
+theorem systemExit_only_via_reader_error (env : Env) (fuel : Nat) (c : Cls) (st st' : St)
+    (horc : ∀ i c, (env.orc i c).res ≠ .raise .systemExit)
+    (h : run env fuel c st = (.raise .systemExit, st')) : SX st < SX st' := by
+  unfold run fresh at h
+  simp only [Prod.mk.injEq] at h
+  have := (eval_P (env := env) (e0 := .systemExit) (Or.inl rfl) horc fuel).spec c [] st .systemExit
+    (eval env fuel c [] st).2.1 st' (Prod.ext h.1 (Prod.ext rfl h.2))
+  exact (this rfl).2
+
+/-- if no leaf class raises `InternalSyntaxError`, no class ever yields it -/
+theorem internalSyntax_only_from_leaves (env : Env) (fuel : Nat) (c : Cls) (st : St)
+    (horc : ∀ i c, (env.orc i c).res ≠ .raise .internalSyntax) :
+    (run env fuel c st).1 ≠ .raise .internalSyntax := by
+  intro h
+  unfold run fresh at h
+  have := (eval_P (env := env) (e0 := .internalSyntax) (Or.inr rfl) horc fuel).spec c [] st
+    .internalSyntax (eval env fuel c [] st).2.1 (eval env fuel c [] st).2.2
+    (Prod.ext h (Prod.ext rfl rfl))
+  exact absurd (this rfl).1 (by simp)
 
 /-! ## witnesses on a concrete small table -/
 
@@ -253,6 +376,46 @@ theorem seq_repaired_witness :
     outKind (res { seqRestores := true } orcDrop 12 2).1 = 0 ∧
     (res { seqRestores := true } orcDrop 12 2).2.stream.all.map (·.id) = [1] ∧
     D (res { seqRestores := true } orcDrop 12 2).2 = 0 := by
+  decide
+
+open W in
+/-- F-C08-1: `i = 1 / end / @@garbage`: the fall-back accepts the program and never looks at
+the third line (`fallback` event, no drop event) -/
+theorem garbage_after_main0_witness :
+    outKind (res {} (fun i c => match i, c with
+        | 0, 5 => ans (.matched stmtInfo) | 1, 4 => ans (.matched (endInfo none))
+        | _, _ => ans .none) 0 3).1 = 0 ∧
+    (res {} (fun i c => match i, c with
+        | 0, 5 => ans (.matched stmtInfo) | 1, 4 => ans (.matched (endInfo none))
+        | _, _ => ans .none) 0 3).2.stream.all.map (·.id) = [2] ∧
+    FB (res {} (fun i c => match i, c with
+        | 0, 5 => ans (.matched stmtInfo) | 1, 4 => ans (.matched (endInfo none))
+        | _, _ => ans .none) 0 3).2 = 1 := by
+  decide
+
+namespace W
+/-- class 20: a NON-scoping block `Stmt [Sub]… End_Sub` -/
+def kind2 : Cls → Kind
+  | 20 => .block { start := some 5, subs := [2], end_ := some 4, endAll := [4] } []
+  | c => kind c
+def orcStale : Oracle := fun i c =>
+  match i, c with
+  | 0, 5 => ans (.matched stmtInfo)
+  | 1, 3 => ans (.matched (subInfo 5))
+  | 2, 4 => ans (.matched (endInfo (some 5)))
+  | _, _ => ans .none
+def resStale : Outcome × St :=
+  run { env {} orcStale with tbl := { tbl {} with kind := kind2 } } 12 20 (St.init (items 3))
+end W
+
+open W in
+/-- F-C16-1 in miniature: a non-scoping block attempt is abandoned (its end statement is
+missing) after an inner scoping block was matched: the stream is restored exactly, the chain
+of open scopes is unchanged, but the table of the inner block stays in the forest. -/
+theorem stale_table_witness :
+    outKind resStale.1 = 2 ∧ resStale.2.stream.all.map (·.id) = [0, 1, 2] ∧
+    resStale.2.sym.chain = [] ∧ resStale.2.sym.forest.length = 1 ∧
+    leaks resStale.2.log = 0 ∧ D resStale.2 = 0 := by
   decide
 
 /-! ## non-vacuity -/
